@@ -199,16 +199,28 @@ class Plot2D(Contract):
         return {"confirmed": bool(bad), "detail": "drawn line vs closed contour polyline: " + ("differs" if bad else "equal")}
 
 
-@contract(U + "read_ec_benchmark_dataset", ["C20"], [dict(path="given")], name="read_ec_benchmark_dataset")
+@contract(U + "read_ec_benchmark_dataset", ["C20"], [dict(path="given"), dict(path="given", twice=True)], name="read_ec_benchmark_dataset")
 class ReadBenchmark(Contract):
     """the file is read with ';' as separator; the first column is removed from the data and becomes - parsed as
     '%Y-%m-%d-%H' time stamps - the index; the frame itself is returned (every row, in order)"""
 
+    use_body = True
+
     def case_label(self, case):
-        return f"path={case['path']}"
+        return f"path={case['path']}" + (",read_twice" if case.get("twice") else "")
 
     def inputs(self, itp, case):
         return (["some/dir/data_X.txt"] if case["path"] == "given" else []), {}
+
+    def body(self, itp, case, args, kwargs):
+        from vf.contract import make_fv
+        fv = make_fv(itp, U + "read_ec_benchmark_dataset")
+        r = itp.call_function(fv, list(args), dict(kwargs))
+        if case.get("twice"):
+            # history: the file may have been rewritten in between - the second call has to read it again
+            self.first = r
+            r = itp.call_function(fv, list(args), dict(kwargs))
+        return r
 
     def post(self, itp, case, inp, out):
         cx = itp.cx
@@ -216,10 +228,11 @@ class ReadBenchmark(Contract):
             cx.oblige("post.returns", False, "post", f"raised {out.exc}: {out.msg}")
             return
         frames = cx.ghost.get("read_csv", [])
-        cx.oblige("post.one_read", len(frames) == 1, "post")
-        if len(frames) != 1:
+        n_reads = 2 if case.get("twice") else 1
+        cx.oblige("post.one_read_per_call", len(frames) == n_reads, "post", "every call reads the file (no rows of an earlier read are handed out)")
+        if len(frames) != n_reads:
             return
-        f = frames[0]
+        f = frames[-1]
         if case["path"] == "given":
             cx.oblige("post.path", f.path == "some/dir/data_X.txt", "post")
         cx.oblige("post.separator", f.kwargs.get("sep") == ";", "post", "';' separated values")
@@ -227,4 +240,4 @@ class ReadBenchmark(Contract):
         ix = f.index
         cx.oblige("post.index", isinstance(ix, SeriesObj) and ix.frame is f and ix.col == ("column", 0) and ix.converted is not None and ix.converted.get("format") == "%Y-%m-%d-%H", "post",
                   "the index is that column parsed as time stamps")
-        cx.oblige("post.returns_frame", out.value is f, "post")
+        cx.oblige("post.returns_frame", out.value is f or getattr(out.value, "copy_of", None) is f, "post", "the frame that was read (or a copy of it): every row, in order")
